@@ -132,6 +132,25 @@ def check_bch(ctx: Ctx, c: Dict[str, Any]) -> None:
                               f"compose_svfs(mode={mode}) is not covariant under a change of units: off by {max_err(w2, w1 * cf):.3g}", c)
         except Exception as ex:
             ctx.violation(dict(op="lie_bracket", exc=type(ex).__name__, mode=mode, **sig0), f"lie_bracket(mode={mode}) raised {type(ex).__name__}: {str(ex)[:100]}", c)
+    # a batch with one spacing row PER FIELD: every field is differentiated with its own row
+    try:
+        sp_a = [float(x_) for x_ in (sp if isinstance(sp, (list, tuple)) else [sp] * D)]
+        sp_b = [a_ * b_ for a_, b_ in zip(sp_a, [2.0, 0.5, 3.0][:D])]
+        S = torch.tensor([sp_a, sp_b], dtype=u.dtype)
+        ub, vb = torch.cat([u, 0.5 * u]), torch.cat([v, v])
+        for mode in ("forward_central_backward", "central", None):
+            bb = U.lie_bracket(vb, ub, mode=mode, spacing=S)
+            b0 = U.lie_bracket(v, u, mode=mode, spacing=sp_a)
+            b1 = U.lie_bracket(v, 0.5 * u, mode=mode, spacing=sp_b)
+            if max_err(bb[0:1], b0) > 1e-9 * max(1.0, float(b0.abs().max())) or max_err(bb[1:2], b1) > 1e-9 * max(1.0, float(b1.abs().max())):
+                ctx.violation(dict(op="lie_bracket", what="per_field_spacing", mode=str(mode), **sig0),
+                              f"lie_bracket(mode={mode}) of a batch with one spacing row per field differs from the brackets of the single fields (field 0: {max_err(bb[0:1], b0):.3g}, field 1: {max_err(bb[1:2], b1):.3g})", c)
+            wb = U.compose_svfs(ub, vb, mode=mode, spacing=S, bch_terms=2)
+            w1 = U.compose_svfs(0.5 * u, v, mode=mode, spacing=sp_b, bch_terms=2)
+            if max_err(wb[1:2], w1) > 1e-9 * max(1.0, float(w1.abs().max())):
+                ctx.violation(dict(op="compose_svfs", what="per_field_spacing", mode=str(mode), **sig0), f"compose_svfs(mode={mode}) of a batch with one spacing row per field: field 1 differs from the single-field result by {max_err(wb[1:2], w1):.3g}", c)
+    except Exception as ex:
+        ctx.violation(dict(op="lie_bracket", exc=type(ex).__name__, what="per_field_spacing", **sig0), f"per-field spacing raised {type(ex).__name__}: {str(ex)[:100]}", c)
     # none of these functions may change the fields handed to it
     u0, v0 = u.clone(), v.clone()
     try:
